@@ -291,3 +291,125 @@ pub fn sample_json(case: &Case, ran: &Ran) -> Value {
 pub fn first_some<T>(xs: Vec<Option<T>>) -> Option<T> {
     xs.into_iter().flatten().next()
 }
+
+/// Consumption adaptors. A caller may drive the iterator through `nth`, `skip`, `step_by`,
+/// `count` or `last` instead of plain `next()`: the rows are run all the same, so the driver
+/// must see exactly the calls of the plain run (kind, inputs, `changed`), and the items that are
+/// delivered must be the items of the plain run at those positions. Only applied to runs whose
+/// plain stream has no error item (the caller model after errors is a separate matter, 2.10).
+pub fn adaptor_check(case: &Case, pr: &Printed, base: &RealTrace, r: &mut crate::prng::Prng, acc: &mut Acc) -> Option<Finding> {
+    if !matches!(base.construct, Construct::Ok) {
+        return None;
+    }
+    let rows: Vec<&RealItem> = base.steps.iter().map(|s| &s.item).take_while(|i| matches!(i, RealItem::Row(_))).collect();
+    let clean = base.steps.len() > rows.len()
+        && base.steps[rows.len()..].iter().all(|s| s.item == RealItem::End)
+        && rows.len() >= 2;
+    if !clean {
+        return None;
+    }
+    let (_, parsed) = parse(&pr.text);
+    let (_, tc) = bind(parsed?, &case.signals);
+    let tc = tc?;
+    let n = rows.len();
+    let sched = |r: &mut crate::prng::Prng| (0..1 + r.below(4)).map(|_| r.below(4)).collect::<Vec<usize>>();
+    let how = match r.below(6) {
+        0 | 1 => Consume::Nth(sched(r)),
+        2 => Consume::Skip(sched(r)),
+        3 => Consume::StepBy(1 + r.below(4)),
+        4 => Consume::Count(r.below(n + 1)),
+        _ => Consume::Last(r.below(n + 1)),
+    };
+    let got = run_bound_consume(&tc, &case.signals, &case.script, Some(case.rng_seed), &how, n + 8)?;
+    acc.evaluations += 1;
+    let name = match &how {
+        Consume::Nth(_) => "nth",
+        Consume::Skip(_) => "skip",
+        Consume::StepBy(_) => "step_by",
+        Consume::Count(_) => "count",
+        Consume::Last(_) => "last",
+    };
+    acc.event(&format!("adaptor_runs_{name}"), 1);
+    if let Some(p) = &got.panic {
+        return Some(Finding::new(p.signature(), format!("consuming through {how:?}: {p:?}")));
+    }
+    let at = |i: usize| -> &RealItem { rows.get(i).copied().unwrap_or(&RealItem::End) };
+    for (i, item) in &got.items {
+        if item != at(*i) {
+            return Some(Finding::new(
+                "adaptor-item-differs",
+                format!("consuming through {how:?}: item at position {i} is {item:?}, plain next() delivers {:?}", at(*i)),
+            ));
+        }
+    }
+    if let Some((from, c)) = got.count {
+        if c != n - from.min(n) {
+            return Some(Finding::new("adaptor-count", format!("{how:?}: count() after {from} items = {c}, plain stream has {n} rows")));
+        }
+    }
+    if let Some((from, l)) = &got.last {
+        let want = if *from < n { Some(at(n - 1).clone()) } else { None };
+        if *l != want {
+            return Some(Finding::new("adaptor-last", format!("{how:?}: last() after {from} items = {l:?}, want {want:?}")));
+        }
+    }
+    // every adaptor used here runs the stream to its end (Nth/Skip until None, StepBy/Count/Last
+    // exhaust it), except that skipping may stop short of trailing rows: compare the common prefix
+    // and require that nothing but the calls of the plain run was made
+    let m = got.calls.len();
+    if m > base.calls.len() || got.calls[..] != base.calls[..m] {
+        let k = (0..m.min(base.calls.len())).find(|&k| got.calls[k] != base.calls[k]).unwrap_or(m.min(base.calls.len()));
+        return Some(Finding::new(
+            "adaptor-driver-calls-differ",
+            format!(
+                "consuming through {how:?}: driver call #{k} is {:?}, the plain run makes {:?}",
+                got.calls.get(k),
+                base.calls.get(k)
+            ),
+        ));
+    }
+    let exhausted = match &how {
+        Consume::StepBy(_) | Consume::Count(_) | Consume::Last(_) => true,
+        Consume::Nth(_) | Consume::Skip(_) => got.items.last().map(|(_, i)| *i == RealItem::End).unwrap_or(false),
+    };
+    if exhausted && m != base.calls.len() {
+        return Some(Finding::new(
+            "adaptor-driver-calls-differ",
+            format!("consuming through {how:?} to the end made {m} driver calls, the plain run {}", base.calls.len()),
+        ));
+    }
+    acc.event("adaptor_driver_calls_compared", m as u64);
+    None
+}
+
+/// C18 as far as it can be decided from the text alone (used where the reference abstains, e.g.
+/// loops whose body rebinds the loop's own counter): at every yielded row, `vars()` holds only
+/// names that can be in scope at that row's place in the text, and at rows outside every loop the
+/// constant top-level bindings are visible with their own value again.
+pub fn vars_within_textual_scope(p: &Program, pr: &Printed, real: &RealTrace, acc: &mut Acc) -> Option<Finding> {
+    let scopes = crate::scope::row_scopes(p);
+    let by_line: std::collections::HashMap<usize, &crate::scope::RowScope> =
+        pr.row_lines.iter().filter_map(|(id, line)| scopes.get(id).map(|s| (*line, s))).collect();
+    for (k, st) in real.steps.iter().enumerate() {
+        let RealItem::Row(row) = &st.item else { continue };
+        let (Some(sc), Some(vars)) = (by_line.get(&row.line), st.vars.as_ref()) else { continue };
+        acc.event("vars_snapshots_checked_against_textual_scope", 1);
+        if let Some(extra) = vars.keys().find(|n| !sc.names.contains(*n)) {
+            return Some(Finding::new(
+                "vars-name-out-of-scope",
+                format!("row #{k} (line {}): vars() holds `{extra}` = {:?}, which is not in scope there (in scope: {:?})", row.line, vars.get(extra), sc.names),
+            ));
+        }
+        if sc.outside_loops {
+            for (n, v) in &sc.fixed {
+                if vars.get(n) != Some(v) {
+                    return Some(Finding::new(
+                        "vars-outer-binding-not-uncovered",
+                        format!("row #{k} (line {}), outside every loop: vars()[{n}] = {:?}, but the only bindings of `{n}` outside loop bodies make it {v}", row.line, vars.get(n)),
+                    ));
+                }
+            }
+        }
+    }
+    None
+}
